@@ -1,2 +1,195 @@
-(** C01 — placeholder until the proofs land. *)
-From Snel Require Import Model.Shard.
+(** C01 — applied writes survive any process crash and restart, exactly once.
+    This file contains only the property theorems, each closed by [exact],
+    with [Print Assumptions] beneath.  Model: Model/Shard.v (trace-validated against
+    the engine, crashes included); proofs, the specification-side bookkeeping
+    ([stored], [durable], [pending]: plain recursions over the label list) and the
+    non-vacuity examples: Proofs/ShardC01Proofs.v.
+
+    Setting: [ls] is ANY list of labels (stores, manual flushes, WAL writes and
+    rotations, flush-worker stages, crashes and restarts in any order),
+    [s = run (init c) ls].  [durable ls] = the events whose WAL entry was written
+    (the "acknowledged and applied" cut with flush_each_write).  [occ e l] = number
+    of occurrences of [e] in [l].  The model's ghost list [wlost s] holds the entries
+    appended while the writer's file was unlinked and the entries of deleted log
+    files that were in no segment directory at deletion time. *)
+From Coq Require Import NArith List.
+From Snel Require Import Model.Shard Proofs.ShardC01Proofs.
+Import ListNotations.
+Open Scope N_scope.
+
+(** * 1. All histories *)
+
+(** Every durable event outside the known class is returned exactly once after a
+    crash + restart, and after a clean stop + restart. *)
+Theorem C01_survives_unless_pruned : forall c ls e,
+  NoDup (map ek (stored ls)) ->
+  In e (durable ls) -> ~ In e (wlost (run (init c) ls)) ->
+  occ e (select (restart (crash (run (init c) ls))) (euid e)) = 1%nat /\
+  occ e (select (restart (run (init c) ls)) (euid e)) = 1%nat.
+Proof. exact survives_unless_pruned. Qed.
+Print Assumptions C01_survives_unless_pruned.
+
+(** The same with the known class spelled out: [OpenWalFilePruned c ls e] := the event's WAL
+    entry went to (or was in) a log file that the flush worker pruned while no directory
+    held the event, i.e. [In e (wlost (run (init c) ls))]. *)
+Theorem C01_durable_exactly_once_outside_known : forall c ls e,
+  NoDup (map ek (stored ls)) -> In e (durable ls) -> ~ OpenWalFilePruned c ls e ->
+  occ e (select (restart (crash (run (init c) ls))) (euid e)) = 1%nat /\
+  occ e (select (restart (run (init c) ls)) (euid e)) = 1%nat.
+Proof. exact durable_exactly_once_outside_known. Qed.
+Print Assumptions C01_durable_exactly_once_outside_known.
+
+(** Nothing is invented: whatever a selection returns, in any reachable state and
+    after a crash + restart, was stored and has the queried type. *)
+Theorem C01_no_phantom : forall c ls u e,
+  In e (select (run (init c) ls) u) -> In e (stored ls) /\ euid e = u.
+Proof. exact no_phantom. Qed.
+Print Assumptions C01_no_phantom.
+
+Theorem C01_no_phantom_after_crash : forall c ls u e,
+  In e (select (restart (crash (run (init c) ls))) u) -> In e (stored ls) /\ euid e = u.
+Proof. exact no_phantom_after_crash. Qed.
+Print Assumptions C01_no_phantom_after_crash.
+
+(** No selection, in any state whatsoever, contains a key or an event twice: events
+    that were not yet written when the crash hit are absent or present once. *)
+Theorem C01_never_duplicated : forall s u e,
+  NoDup (map ek (select s u)) /\ (occ e (select s u) <= 1)%nat.
+Proof. exact never_duplicated. Qed.
+Print Assumptions C01_never_duplicated.
+
+(** * 2. One lifetime without manual FLUSH (WAL file ids and segment ids in lockstep)
+
+    [lockstep ls]: no [LFlushCmd], [LCrash], [LRestart].  [wal_ordered]: the WAL
+    thread's program order (no write while a rotation is due). *)
+
+(** No durable event is lost: it is in a log file or in a segment directory. *)
+Theorem C01_lockstep_no_loss : forall c ls, 0 < c ->
+  lockstep ls = true -> wal_ordered (init c) ls = true ->
+  forall e, In e (durable ls) ->
+    In e (frows (walfiles (run (init c) ls))) \/ In e (drows (dirs (run (init c) ls))).
+Proof. exact lockstep_no_loss. Qed.
+Print Assumptions C01_lockstep_no_loss.
+
+(** The ghost list only holds events that are in a segment directory. *)
+Theorem C01_lockstep_wlost_in_dirs : forall c ls, 0 < c ->
+  lockstep ls = true -> wal_ordered (init c) ls = true ->
+  forall e, In e (wlost (run (init c) ls)) -> In e (drows (dirs (run (init c) ls))).
+Proof. exact lockstep_wlost_in_dirs. Qed.
+Print Assumptions C01_lockstep_wlost_in_dirs.
+
+(** It is empty, and the writer's file is never unlinked, when the WAL thread is
+    idle at every log-file deletion (the harness's "WAL drained" cut). *)
+Theorem C01_lockstep_wlost_empty : forall c ls, 0 < c ->
+  lockstep ls = true -> wal_ordered (init c) ls = true -> wal_idle_at_prune (init c) ls = true ->
+  wunlinked (run (init c) ls) = false /\ wlost (run (init c) ls) = [].
+Proof. exact lockstep_wlost_empty. Qed.
+Print Assumptions C01_lockstep_wlost_empty.
+
+(** Without that extra hypothesis the ghost list can be non-empty (the flush worker
+    outruns the WAL thread) ... *)
+Theorem C01_lockstep_wlost_empty_refuted :
+  exists c ls, 0 < c /\ lockstep ls = true /\ wal_ordered (init c) ls = true /\
+    wlost (run (init c) ls) <> [].
+Proof. exact lockstep_wlost_empty_refuted. Qed.
+Print Assumptions C01_lockstep_wlost_empty_refuted.
+
+(** ... and without the program order of the WAL thread a durable event is lost
+    (such label lists are not traces of the engine). *)
+Theorem C01_lockstep_needs_wal_order_refuted :
+  exists c ls e, 0 < c /\ lockstep ls = true /\ wal_ordered (init c) ls = false /\
+    NoDup (map ek (stored ls)) /\ In e (durable ls) /\
+    occ e (select (restart (crash (run (init c) ls))) (euid e)) = 0%nat.
+Proof. exact lockstep_needs_wal_order_refuted. Qed.
+Print Assumptions C01_lockstep_needs_wal_order_refuted.
+
+(** Exactly once after the first crash of a database that never saw a manual FLUSH. *)
+Theorem C01_exactly_once_after_first_crash : forall c ls e, 0 < c ->
+  lockstep ls = true -> wal_ordered (init c) ls = true ->
+  NoDup (map ek (stored ls)) -> In e (durable ls) ->
+  occ e (select (restart (crash (run (init c) ls))) (euid e)) = 1%nat /\
+  occ e (select (restart (run (init c) ls)) (euid e)) = 1%nat.
+Proof. exact exactly_once_after_first_crash. Qed.
+Print Assumptions C01_exactly_once_after_first_crash.
+
+(** * 3. Known findings (class OpenWalFilePruned), both confirmed on the engine *)
+
+(** cap 4: three stores, manual FLUSH run to completion, one more store, crash:
+    the last event is durable but not read back. *)
+Theorem C01_manual_flush_refuted :
+  exists c ls e, 0 < c /\ one_lifetime ls = true /\ wal_ordered (init c) ls = true /\
+    NoDup (map ek (stored ls)) /\ In e (durable ls) /\
+    occ e (select (restart (crash (run (init c) ls))) (euid e)) = 0%nat /\
+    In e (wlost (run (init c) ls)).
+Proof. exact manual_flush_refuted. Qed.
+Print Assumptions C01_manual_flush_refuted.
+
+(** No manual FLUSH: a crash during a rotation and the restart let segment ids run
+    ahead of WAL file ids; a later flush prunes the open log file. *)
+Theorem C01_id_drift_refuted :
+  exists c ls e, 0 < c /\ no_manual_flush ls = true /\
+    NoDup (map ek (stored ls)) /\ In e (durable ls) /\
+    occ e (select (restart (crash (run (init c) ls))) (euid e)) = 0%nat /\
+    In e (wlost (run (init c) ls)).
+Proof. exact id_drift_refuted. Qed.
+Print Assumptions C01_id_drift_refuted.
+
+(** The same drift in its shortest form (cap 2): crash after the directory of an unfinished
+    flush was created; the restart takes the next segment id from the directory list but the
+    WAL id from the log files. *)
+Theorem C01_id_drift_short_refuted :
+  exists c ls e, 0 < c /\ no_manual_flush ls = true /\
+    NoDup (map ek (stored ls)) /\ In e (durable ls) /\
+    occ e (select (restart (crash (run (init c) ls))) (euid e)) = 0%nat /\
+    In e (wlost (run (init c) ls)).
+Proof. exact id_drift_short_refuted. Qed.
+Print Assumptions C01_id_drift_short_refuted.
+
+(** Hence the property as stated (every durable event exactly once, all histories) is false. *)
+Theorem C01_durable_exactly_once_refuted :
+  ~ (forall c ls e, 0 < c -> NoDup (map ek (stored ls)) -> In e (durable ls) ->
+       occ e (select (restart (crash (run (init c) ls))) (euid e)) = 1%nat).
+Proof. exact durable_exactly_once_refuted. Qed.
+Print Assumptions C01_durable_exactly_once_refuted.
+
+(** * 4. COUNT after recovery (class CountAfterRecovery) *)
+
+(** In-memory rows (the replayed WAL) are counted whatever their type ... *)
+Theorem C01_count_type_blind_refuted :
+  exists c ls u, 0 < c /\ lockstep ls = true /\ wal_ordered (init c) ls = true /\
+    NoDup (map ek (stored ls)) /\ wlost (run (init c) ls) = [] /\
+    select (restart (crash (run (init c) ls))) u = of_uid u (durable ls) /\
+    count (restart (crash (run (init c) ls))) u <> len (select (restart (crash (run (init c) ls))) u).
+Proof. exact count_type_blind_refuted. Qed.
+Print Assumptions C01_count_type_blind_refuted.
+
+(** ... and rows present in a leftover directory and in the WAL are counted twice. *)
+Theorem C01_count_double_refuted :
+  exists c ls u, 0 < c /\ lockstep ls = true /\ wal_ordered (init c) ls = true /\
+    NoDup (map ek (stored ls)) /\ wlost (run (init c) ls) = [] /\
+    select (restart (crash (run (init c) ls))) u = of_uid u (durable ls) /\
+    count (restart (crash (run (init c) ls))) u = 2 * len (select (restart (crash (run (init c) ls))) u) /\
+    len (select (restart (crash (run (init c) ls))) u) = 2.
+Proof. exact count_double_refuted. Qed.
+Print Assumptions C01_count_double_refuted.
+
+(** What is true: the exact value ... *)
+Theorem C01_count_after_restart : forall s u,
+  count (restart (crash s)) u = len (frows (walfiles s)) + len (of_uid u (drows (dirs s))) /\
+  count (restart s) u = len (frows (walfiles s)) + len (of_uid u (drows (dirs s))).
+Proof. exact count_after_restart. Qed.
+Print Assumptions C01_count_after_restart.
+
+(** ... COUNT never reports fewer rows than the selection returns, in any state ... *)
+Theorem C01_count_ge_select : forall s u, len (select s u) <= count s u.
+Proof. exact count_ge_select. Qed.
+Print Assumptions C01_count_ge_select.
+
+(** ... and when nothing durable was pruned it covers the durable events of the type. *)
+Theorem C01_count_covers_durable : forall c ls u,
+  NoDup (map ek (stored ls)) ->
+  (forall e, In e (durable ls) -> ~ In e (wlost (run (init c) ls))) ->
+  len (of_uid u (durable ls)) <= len (select (restart (crash (run (init c) ls))) u) /\
+  len (select (restart (crash (run (init c) ls))) u) <= count (restart (crash (run (init c) ls))) u.
+Proof. exact count_covers_durable. Qed.
+Print Assumptions C01_count_covers_durable.
